@@ -80,9 +80,16 @@ func (x *Exec) buildQueryExtra(o *Oblig, wantModel bool, extra string) string {
 		sb.WriteString("(define-sort Float64 () (_ FloatingPoint 11 53))\n")
 	}
 	pre := x.c.P.render(b)
+	lv := x.unfoldLevels
+	if lv == 0 {
+		lv = 2
+	}
+	pre, unf := unfoldRecs(pre, b, lv)
 	sb.WriteString(pre)
+	sb.WriteString("\n")
 	sb.WriteString(x.c.errAxiom(pre + b))
 	sb.WriteString(b)
+	sb.WriteString(unf)
 	sb.WriteString("(check-sat)\n")
 	if wantModel {
 		sb.WriteString("(get-model)\n")
